@@ -42,7 +42,7 @@ class Main(Part):
 
     def budget(self, tier):
         return {"quick": dict(examples=700, shards=4, seconds=100),
-                "thorough": dict(examples=4000, shards=16, seconds=900)}[tier]
+                "thorough": dict(examples=4000, shards=16, seconds=600)}[tier]
 
     def strategy(self, tier):
         return gen.case_shape(max_extent=6 if tier == "quick" else 9, allow_take=True)
